@@ -640,6 +640,10 @@ size_t rtosc_message_ring_length(ring_t *ring)
                 i |= (deref(pos++,ring) << 16);
                 i |= (deref(pos++,ring) << 8);
                 i |= (deref(pos++,ring));
+                //a blob larger than the buffer cannot be complete
+                //(and would wrap the 32 bit position)
+                if(i > ring[0].len+ring[1].len)
+                    return 0;
                 pos += i;
                 if((pos-aligned_pos)%4)
                     pos += 4-(pos-aligned_pos)%4;
